@@ -21,6 +21,8 @@ THEOREMS = [
     "C05_limit_data",
     "C05_map_means_monotone",
     "C05_map_means_monotone_iter",
+    "C05_map_machine_starts_from_prior",
+    "C05_map_init_old_order_refuted",
 ]
 CORR_OPS = ["gmm_mstep_map:weights", "gmm_mstep_map:means", "gmm_mstep_map:variances", "gmm_mstep_map:fit2"]
 RULE = ("prior model x adaptation statistics (real data or synthetic, with starved components n_c = 0 and 0 < n_c < thr) x relevance "
@@ -221,6 +223,9 @@ def oracle_limits(sc):
             return {"sig": "map-m-step-raises", "what": repr(res)}
         if name == "prior":
             ok = core.close(res["m"], np.asarray(ubm.means), 1e-6, 1e-9) and core.close(res["w"], np.asarray(ubm.weights), 1e-6, 1e-9)
+            if ok and not np.array_equal(res["v"], np.asarray(ubm.variances)):
+                return {"sig": "map-limit-prior-variances", "what": f"relevance {rel}, variances not adapted (mean_var_update_threshold {s['thr']}): the machine's variances "
+                        f"{res['v'].tolist()} are not the prior's {np.asarray(ubm.variances).tolist()}"}
         else:
             has = n >= max(s["thr"], 1e-3)
             with np.errstate(all="ignore"):
